@@ -29,6 +29,13 @@ for name in sorted(os.listdir(frag_dir)):
     if name.endswith(".py"):
         exec(open(os.path.join(frag_dir, name)).read())
 
+# only checks the lead has seen green on the unchanged tree are registered
+enabled = set(open(os.path.join(frag_dir, "ENABLED")).read().split())
+for pid in list(CHECKS):
+    if pid not in enabled:
+        PENDING.setdefault(pid, "check built but not yet accepted by the lead on the unchanged tree (under construction)")
+        del CHECKS[pid]
+
 manifest = {
     "version": 1,
     "setup_cmd": "bin/setup",
